@@ -325,6 +325,14 @@ def run(ctx):
             k_file(ctx, w, 130, "never", ctx.seed + w + 1, start_at=(1 << w) - 61)
             for c in (str(1 << w), str((1 << w) + 1), str((1 << w) - 1)):
                 k_content(ctx, w, (c + "\n").encode().hex())
+    # stored counts where the decimal representation gains a digit or a binary field fills up (9, 99, ..., 255, 65535, 2^32-1 ...)
+    interesting = sorted({10 ** k - 1 for k in range(1, 20)} | {(1 << k) - 1 for k in (8, 15, 16, 24, 31, 32, 48, 53, 63)} | {(1 << k) for k in (8, 16, 32)})
+    for w in (16, 20, 32, 64):
+        for v in interesting:
+            if v + 3 <= (1 << w) - 1:
+                i += 1
+                if ctx.mine(i):
+                    k_file(ctx, w, 4, "every" if v & 1 else "never", ctx.seed + v % 1000, start_at=v - 1)
     for j in range(ctx.n(120, 6000)):
         k_rewidth(ctx, "mem" if j & 1 else "file", ctx.seed * 1_000_003 + ctx.shard[0] * 100_003 + j)
     for w in (9, 10, 11, 12, 13, 15):
